@@ -499,6 +499,22 @@ class Model:
                     c.class_vars[name] = st.value
             elif isinstance(st, ast.AnnAssign) and isinstance(st.target, ast.Name) and st.value is not None:
                 c.class_vars[st.target.id] = st.value
+            elif isinstance(st, ast.Assign) and len(st.targets) == 1 and isinstance(st.targets[0], (ast.Tuple, ast.List)) and \
+                    all(isinstance(t, ast.Name) for t in st.targets[0].elts):
+                # ``A, B, C = range(3)`` / ``X, Y = 1, 2``: one constant per name
+                names = [t.id for t in st.targets[0].elts]
+                v = st.value
+                parts = None
+                if isinstance(v, (ast.Tuple, ast.List)) and len(v.elts) == len(names):
+                    parts = list(v.elts)
+                elif isinstance(v, ast.Call) and isinstance(v.func, ast.Name) and v.func.id == 'range' and not v.keywords and \
+                        all(isinstance(a, ast.Constant) and isinstance(a.value, int) for a in v.args):
+                    vals = list(range(*[a.value for a in v.args]))
+                    if len(vals) == len(names):
+                        parts = [ast.copy_location(ast.Constant(value=x), v) for x in vals]
+                if parts is not None:
+                    for n_, part in zip(names, parts):
+                        c.class_vars[n_] = part
         for f in c.methods.values():
             if f.attrs_role:
                 role, fname = f.attrs_role
